@@ -252,6 +252,13 @@ def _execute(spec, ses):
             if res is not None:
                 return _done(_v("divisions_untruthful", "%s:%s" % (kind, res[0]), res[1], read=ri), ses, counters, spec, faults)
         # (b) pushed-down vs in-memory
+        if rd.get("partitions"):
+            # from_pandas may have produced fewer files than asked for (duplicate index values are never split)
+            P_ = [p_ for p_ in rd["partitions"] if p_ < r.npartitions]
+            if not P_:
+                counters["indeterminate"] += 1
+                continue
+            rd = dict(rd, partitions=P_)
         try:
             base = r.partitions[rd["partitions"]] if rd.get("partitions") else r
             base_pdf = _parts_frame(ses, base, refw)
